@@ -59,7 +59,7 @@ def run(res, tier, rng):
         core_hosts += variants(d)
     for d in listed:
         hosts += variants(d)
-    core_hosts += ["netflix.com", "chat.me", "instagramxcom", "notfacebook.com", "facebook.com.", "l.facebook.com", "l.instagram.com", "l.example.com", "localhost", "127.0.0.1", "youtu.be"]
+    core_hosts += ["netflix.com", "chat.me", "instagramxcom", "notfacebook.com", "facebook.com.", "l.facebook.com", "l.instagram.com", "l.example.com", "localhost", "127.0.0.1", "youtu.be", "localhostcert.net", "localhost.daplie.me", "127.0.0.1.nip.io", "localhost.bit.ly", "1.2.3.4.t.co"]
     core_hosts = list(dict.fromkeys(core_hosts))
     hosts = [h for h in dict.fromkeys(hosts) if h not in core_hosts]
     decoys = ["?next=user@facebook.com/login", "#a@fb.me/x", "?u=@twitter.com", "#@x.com/home", "?mail=me@www.instagram.com#top", "#chat@t.me",
@@ -113,6 +113,9 @@ def run(res, tier, rng):
         io["html"] = call(could_be_html, full)
         io["hostname"] = call(get_hostname, full)
         io["special"] = call(has_special_host, full)
+        # a special host is 'localhost' or an IP address: a name ending in an alphabetic label is not one
+        if io["special"] is True and hl != "localhost" and ":" not in hl and hl.rsplit(".", 1)[-1].isalpha():
+            res.violation("property", "has_special_host is true for a host that is neither localhost nor an IP address", input=dict(url=full, host=hl), impl=io["special"])
         # trie predicates: whole-label membership, independence of userinfo / query / fragment / form
         def under_any(hh, doms):
             return any(hh == d or hh.endswith("." + d) for d in doms)
